@@ -79,8 +79,14 @@ def voronoi(n, seed):
     from scipy.spatial import SphericalVoronoi
 
     rng = _rng(seed, n, 11)
-    pts = _safe_points(rng, n)
-    sv = SphericalVoronoi(pts, radius=1.0, center=np.zeros(3))
+    # resample until every cell stays within ~78 deg of its generator (no near-hemisphere cells)
+    for _try in range(2000):
+        pts = _safe_points(rng, n)
+        sv = SphericalVoronoi(pts, radius=1.0, center=np.zeros(3))
+        if all(np.min(ref.unit(sv.vertices[r]) @ pts[i]) > 0.2 for i, r in enumerate(sv.regions)):
+            break
+    else:
+        raise RuntimeError("no well-spread generator set found")
     sv.sort_vertices_of_regions()
     xyz = ref.unit(sv.vertices)
     faces = [_orient(xyz, list(r)) for r in sv.regions]
@@ -91,8 +97,15 @@ def delaunay(n, seed):
     from scipy.spatial import ConvexHull
 
     rng = _rng(seed, n, 13)
-    pts = _safe_points(rng, n)
-    hull = ConvexHull(pts)
+    # resample until the origin is well inside the hull: every triangle then has a
+    # circumradius below acos(0.2) ~ 78 deg (no face anywhere near a hemisphere)
+    for _try in range(2000):
+        pts = _safe_points(rng, n)
+        hull = ConvexHull(pts)
+        if hull.equations[:, 3].max() < -0.2:
+            break
+    else:
+        raise RuntimeError("no well-centred point set found")
     faces = [_orient(pts, list(s)) for s in hull.simplices]
     return Mesh(pts, faces, {"family": "delaunay", "n": n, "seed": seed}, True)
 
@@ -436,10 +449,10 @@ def random_mesh(rng, max_faces=200, allow_partial=True, families=None):
         n = int(rng.integers(4, max(5, max_faces)))
         d = {"family": fam, "n": n, "seed": seed}
     elif fam == "delaunay":
-        n = int(rng.integers(4, max(5, max_faces // 2 + 2)))
+        n = int(rng.integers(6, max(7, max_faces // 2 + 2)))
         d = {"family": fam, "n": n, "seed": seed}
     elif fam == "merged":
-        n = int(rng.integers(5, max(6, max_faces // 2 + 2)))
+        n = int(rng.integers(6, max(7, max_faces // 2 + 2)))
         d = {"family": fam, "n": n, "seed": seed, "frac": float(rng.choice([0.3, 0.6, 0.9]))}
     elif fam == "polyhedron":
         d = {"family": fam, "name": POLYHEDRA[int(rng.integers(0, len(POLYHEDRA)))]}
